@@ -119,6 +119,24 @@ func (c *c20Case) stream() (data []byte, ends []int) {
 			sb.WriteString("\x1b[200~")
 		}
 		for j, t := range toks {
+			if edit != 0 && strings.HasPrefix(c.Sep[i][j], "\r") && j+1 < len(toks) {
+				// second thoughts after Enter: the typist first ended the line with
+				// something else, pressed Enter, then erased back across the line
+				// break and typed what was meant (the entry is still pending, so
+				// the line editor holds all of it)
+				edit ^= edit << 13
+				edit ^= edit >> 7
+				edit ^= edit << 17
+				if edit%3 == 0 {
+					wrong := []string{"'oops", "\"x y", "x1", "'a;b", "(", "''", "'\u00e9;", t + "'"}[int(edit>>8)%8]
+					sb.WriteString(wrong)
+					sb.WriteString("\r")
+					bs := []string{"\x7f", "\x08"}[int(edit>>16)%2]
+					for k := 0; k < len([]rune(wrong))+1; k++ {
+						sb.WriteString(bs)
+					}
+				}
+			}
 			sb.WriteString(typed(t, &edit, true))
 			sb.WriteString(c.Sep[i][j])
 		}
